@@ -35,13 +35,16 @@ def main():
     ap.add_argument("--checks")
     ap.add_argument("--tier", default="quick")
     ap.add_argument("--skip-confirm", action="store_true")
+    ap.add_argument("--round", default="1")
     a = ap.parse_args()
-    src = "/tmp/mut-out/%s" % a.prop
-    wt = "/tmp/mut-%s" % a.prop
+    if a.round == "1":
+        src, wt = "/tmp/mut-out/%s" % a.prop, "/tmp/mut-%s" % a.prop
+    else:
+        src, wt = "/tmp/mut-out%s/%s" % (a.round, a.prop), "/tmp/mut%s-%s" % (a.round, a.prop)
     patch = os.path.join(src, "patch%s.diff" % a.k)
     demo = os.path.join(src, "demo%s.py" % a.k)
     notes = os.path.join(src, "notes%s.md" % a.k)
-    out = os.path.join(ROOT, "seeded", "%s-%s" % (a.prop, a.k))
+    out = os.path.join(ROOT, "seeded", "%s-%s" % (a.prop, a.k) if a.round == "1" else "%s-r%s-%s" % (a.prop, a.round, a.k))
     os.makedirs(out, exist_ok=True)
     meta = {"property": a.prop, "patch": "patch.diff", "demonstration": "demo.py", "confirmed": {}, "checks": {}}
     if not a.skip_confirm:
@@ -93,7 +96,7 @@ def main():
                 print("   ", l[:200])
     finally:
         sh("git checkout -- .", cwd="/repo")
-    meta["ran"] = "tools/seedcheck.py %s %s --checks %s --tier %s" % (a.prop, a.k, ",".join(checks), a.tier)
+    meta["ran"] = "tools/seedcheck.py %s %s --round %s --checks %s --tier %s" % (a.prop, a.k, a.round, ",".join(checks), a.tier)
     meta["detected_by"] = [c for c, v in meta["checks"].items() if v["detected"]]
     with open(os.path.join(out, "meta.json"), "w") as f:
         json.dump(meta, f, indent=1)
